@@ -17,8 +17,8 @@ import time
 from concurrent.futures import ThreadPoolExecutor
 
 VERIF = os.path.dirname(os.path.dirname(os.path.abspath(__file__)))
-WORK = os.path.join(VERIF, '.work')
-EVID = os.path.join(VERIF, 'evidence')
+WORK = os.environ.get('VERIF_WORK') or os.path.join(VERIF, '.work')
+EVID = os.path.join(VERIF, 'evidence') if not os.environ.get('VERIF_WORK') else os.path.join(os.environ['VERIF_WORK'], 'evidence')
 KNOWN = os.path.join(VERIF, 'known_findings.json')
 JOBS = int(os.environ.get('VERIF_JOBS', '16'))
 
